@@ -43,7 +43,7 @@ func TestBinaryConfiguredIngestion(t *testing.T) {
 		}
 		defer b.Stop()
 		if !b.AwaitLine("warmup:1|c", "warmup", 30*time.Second) {
-			if b.Exited() {
+			if b.Exited() && !b.BindFailed() {
 				vt.Fail(t, "C03:process-died", "%s exited on its first ordinary line; output: %s", b.Describe(), b.Tail(30))
 			}
 			ev.C().Excluded("binary-not-serving", 1)
